@@ -6,6 +6,18 @@ CHECKS = [
               "bindings transcript are compared with a reference model of the documented dim language. Shows agreement on "
               "~10^4 (quick) to ~10^6 (thorough) checks spread over all branch classes; not a proof.",
          note="trusted: vf/models/dimlang.py and vf/models/dtypes.py (written from docs/api/array.md); bounded ranks<=7, sizes in {0,1,2,3,4,5,7}; numpy/duck/jax backends"),
+    dict(property_id="C03", level="exploration", design_ref="DESIGN.md §5 C03",
+         technique="complete enumeration of the finite (dtype x category x backend) space against a hand-typed table of the documented hierarchy",
+         text="Every concrete NumPy/ml_dtypes scalar type, JAX key dtypes, structured dtypes x 34 exported classes + 16 user categories x "
+              "NumPy/jax.Array/tracers/keys/TensorFlow/duck backends is enumerated completely (exhaustive: true, ~1.9e4 triples); for the "
+              "installed library versions this decides the property on its whole finite domain.",
+         note="trusted: vf/models/dtypes.py typed from docs/api/array.md; PyTorch/MLX represented by duck arrays with their dtype repr; Python 3.12, numpy 1.26, jax 0.6.2, tensorflow 2.21 only"),
+    dict(property_id="C14", level="exploration", design_ref="DESIGN.md §5 C14, §3.1",
+         technique="exhaustive token enumeration + Hypothesis token sequences/raw text; oracle = constructed-token legality rules and metamorphic equality of acceptance vectors with the canonical spelling",
+         text="All 341 modifier strings x doc= positions x 5 base classes and all pairs of 40 representative tokens are enumerated; Hypothesis adds "
+              "<=4-token sequences with arbitrary whitespace, non-strings and raw text. Illegal => ValueError exactly, legal => same acceptance vector "
+              "as the canonical spelling and as the reference matcher, anything => builds or ValueError.",
+         note="trusted: Token.legal/meaning in vf/models/dimlang.py (typed from docs); undocumented forms are checked for totality only"),
 ]
 _pending = "check not built yet in this round (will be claimed once its machinery is committed)"
 NOT_APPLICABLE = [dict(property_id=f"C{i:02d}", reason=_pending) for i in range(1, 21)
